@@ -561,6 +561,8 @@ Definition pstep (s : pst) (l : plabel) : option pst :=
     end
   | PDriverDrop =>
     if negb (driver_alive s) then None else
+    (* the Submit future keeps the proactor alive (Rc): the driver goes only after it *)
+    if match pf s with PSubmitted => true | _ => false end then None else
     let s0 := mk_pst (uring s) (drain_adopts s) (pf s) (pk s) (pd s) (ready s) false (user_ref s) (drv_ref s) false in
     match pk s with
     | KDoneOk =>
